@@ -197,6 +197,8 @@ def build(spec, scratch=None, stop_at=None, tolerate_flagged=False):
                     kwargs['dataset_name'] = op['dsname']
                 if op.get('cast') is not None:
                     kwargs['cast_dtype'] = cast_dtype_of(op['cast'])
+                if op.get('cast_raw') is not None:      # verbatim: dtype-like strings, Python types (must-reject cases)
+                    kwargs['cast_dtype'] = {'pyfloat': float, 'pyint': int}.get(op['cast_raw'], op['cast_raw'])
             if op.get('extra_kw'):
                 kwargs.update(op['extra_kw'])
             item = getattr(lf, t['method'])(op['name'], **kwargs)
